@@ -19,7 +19,10 @@ RULE = ("1-4 inputs (sometimes 0) of intervals drawn from touching/nested/chaine
         "MafRecords read under Silent; four streams: valid (each input sorted by the chosen "
         "order), single defect (one adjacent descent, name-sorted under a contig list, missing contig), "
         "boundary (end==start touching, end+1==start, one-point, empty inputs, long chains), adversarial "
-        "(start>end, false records, shuffled). Thorough tier adds the exhaustive enumeration of all layouts "
+        "(start>end, false records, shuffled); a long-sparse case (1100+ consecutive groups). The public API is "
+        "driven through next(it), it.next() or both within one run; arguments equal to their documented defaults "
+        "are passed or left out; a quarter of the contig cases run another iterator with the reversed contig list "
+        "first in the same process. Thorough tier adds the exhaustive enumeration of all layouts "
         "of up to 5 intervals on a 6-point line over 2 inputs (batched). A case is non-trivial when at least "
         "two groups are emitted or an out-of-order report is produced, with >= 3 records; distinct by hash.")
 ASSUMPTIONS = [
@@ -79,7 +82,7 @@ def in_domain(case):
     ctg = case.get("contigs")
     for inp in case["inputs"]:
         for r in inp:
-            if not r[TRU] or r[ST] > r[EN]:
+            if not r[TRU] or r[ST] is None or r[EN] is None or r[ST] > r[EN]:
                 return False
             if ctg and r[CHR] not in ctg:
                 return False
@@ -187,7 +190,17 @@ def run_overlap(case):
 
     objs = build_objects(case)
     cnt = [Counting(x) for x in objs]
-    kw = dict(contigs=case.get("contigs"), by_barcodes=case["by_barcodes"])
+    # documented defaults: contigs=None, by_barcodes=True, overlap_type=Equality, the stock PeekableIterator;
+    # with "defaults" every argument that has its default value is left out of the call
+    dflt = bool(case.get("defaults"))
+    kw = {}
+    if not (dflt and case.get("contigs") is None):
+        kw["contigs"] = case.get("contigs")
+    if not (dflt and case["by_barcodes"] is True):
+        kw["by_barcodes"] = case["by_barcodes"]
+    akw = {}
+    if not (dflt and case["otype"] == 0):
+        akw["overlap_type"] = AlleleOverlapType(case["otype"])
     if case.get("peek_sub") and case["kind"] == 0:
         from maflib.util import PeekableIterator
 
@@ -195,17 +208,26 @@ def run_overlap(case):
             """the documented extension point: a caller's own PeekableIterator subclass"""
 
         kw["peekable_iterator_class"] = FilteringPeekable
+    if case.get("warmup"):
+        # another iterator with another contig list, used earlier in the same process
+        from maflib.locatable import Locatable
+        try:
+            list(LocatableOverlapIterator([iter([Locatable(c, 1, 2) for c in case["warmup"]])],
+                                          contigs=list(case["warmup"]), by_barcodes=False))
+        except Exception:
+            pass
     try:
         if case["kind"] == 0:
             it = LocatableOverlapIterator(cnt, **kw)
         else:
-            it = LocatableByAlleleOverlapIterator(cnt, overlap_type=AlleleOverlapType(case["otype"]), **kw)
+            it = LocatableByAlleleOverlapIterator(cnt, **akw, **kw)
     except Exception as e:
         return {"init": [1, exc_code(e)], "steps": []}
     obs = {"init": [0, [c.n for c in cnt]], "steps": []}
-    for _ in range(case["calls"]):
+    via = case.get("via", 0)            # 0: next(it)   1: it.next()   2: alternating
+    for ncall in range(case["calls"]):
         try:
-            g = next(it)
+            g = it.next() if (via == 1 or (via == 2 and ncall % 2 == 1)) else next(it)
             out = [0, [[rid_of(o) for o in slot] for slot in g]]
         except StopIteration:
             obs["steps"].append([[1, 6], [c.n for c in cnt]])
@@ -476,7 +498,37 @@ def gen_base(rng, stream, kind=0, otype=0):
     q = rng.random()
     rectype = "maf" if q < 0.3 else "gdc" if q < 0.42 else "loc"
     case = _mkcase(rng, stream, inputs, by_barcodes, contigs, rectype, kind, otype)
+    vary_call(rng, case)
     return _sort_inputs(case)
+
+
+def vary_call(rng, case):
+    """how the public API is driven: next(it) / it.next() / both in one run; arguments that have their
+    documented default value passed or left out; another iterator with another contig order used before"""
+    case["via"] = rng.choice([0, 0, 0, 1, 1, 2])
+    case["defaults"] = rng.random() < 0.35
+    ctg = case.get("contigs")
+    if ctg and rng.random() < 0.25:
+        w = list(dict.fromkeys(ctg))
+        w.reverse()
+        case["warmup"] = w
+    return case
+
+
+def gen_long_sparse(rng, kind=1, otype=0, n=None):
+    """n consecutive positional groups holding records of the second input only, then one group with a
+    first-input record (tiny records; the allele-aware iterator has to skip n groups inside one call)"""
+    n = n or rng.randint(1100, 3000)
+    second = [[0, True, "T1", "N1", "chr1", 3 * i + 1, 3 * i + 1, "A", ["C"]] for i in range(n)]
+    first = [[0, True, "T1", "N1", "chr1", 3 * n + 5, 3 * n + 6, "A", ["C"]]]
+    second.append([0, True, "T1", "N1", "chr1", 3 * n + 6, 3 * n + 6, "A", rng.choice([["C"], ["G"]])])
+    case = _mkcase(rng, "long-sparse", [first, second], False, None, "loc", kind, otype)
+    case["via"] = rng.choice([0, 1])
+    case["defaults"] = rng.random() < 0.5
+    fix_ids(case)
+    if kind == 1:
+        case["calls"] = 4
+    return case
 
 
 def gen_valid(rng, kind=0, otype=0):
@@ -546,6 +598,7 @@ def gen_boundary(rng, kind=0, otype=0):
             pos = rng.randint(1, 3)
     contigs = rng.choice([None, list(KARYO), ["chr10", "chr2", "chr1"]])
     case = _mkcase(rng, "boundary", inputs, by_barcodes, contigs, rng.choice(["loc", "maf"]), kind, otype)
+    vary_call(rng, case)
     return fix_ids(_sort_inputs(case))
 
 
@@ -577,7 +630,9 @@ def generate(rng, n):
     out = []
     for k in range(n):
         r = k % 10
-        if r < 4:
+        if k % 1200 == 11:
+            out.append(gen_long_sparse(rng, 0, 0, rng.randint(1100, 1600)))
+        elif r < 4:
             out.append(gen_valid(rng))
         elif r < 6:
             out.append(gen_defect(rng))
